@@ -107,7 +107,7 @@ def make_replay(l, r):
 def go_regex(l, r):
     return r'^auto chaiscript::Boxed_Number::go<%s, %s>\(' % (DEM[l], DEM[r])
 
-NOINLINE = [r'chaiscript::Boxed_Number::go<', r'chaiscript::Boxed_Number::oper\(', r'chaiscript::Boxed_Value::~Boxed_Value', r'chaiscript::const_var', r'arithmetic_error::arithmetic_error', r'bad_any_cast::bad_any_cast',
+NOINLINE = [r'chaiscript::Boxed_Number::go<', r'chaiscript::Boxed_Number::oper\(', r'chaiscript::Boxed_Number::Boxed_Number\(', r'chaiscript::boxed_cast<bool>', r'chaiscript::Boxed_Value::~Boxed_Value', r'chaiscript::const_var', r'arithmetic_error::arithmetic_error', r'bad_any_cast::bad_any_cast',
             r'basic_string<.*>::basic_string<std::allocator<char> >\(char const\*']
 FAM = Family('number', 'number.cpp', noinline=NOINLINE)
 
@@ -169,8 +169,22 @@ def unary_harness(l):
                 inputs=['a', 'op', 'is_const'], note='every value of the operand type, all 33 operator codes, const or mutable operand')
     return h
 
+W2 = ['equals','less_than','greater_than','greater_than_equal','less_than_equal','not_equal','sum','difference','assign_bitwise_and','assign','assign_bitwise_or','assign_bitwise_xor','assign_remainder','assign_shift_left','assign_shift_right','bitwise_and','bitwise_xor','bitwise_or','assign_product','assign_quotient','assign_sum','assign_difference','quotient','shift_left','product','remainder','shift_right']
+W1 = ['pre_decrement','pre_increment','unary_plus','unary_minus','bitwise_complement']
+def wrapper_harness():
+    BN = r'^chaiscript::Boxed_Number::'
+    stubs = [r'chaiscript::Boxed_Number::oper\(', r'chaiscript::Boxed_Number::Boxed_Number\(', r'chaiscript::boxed_cast<']
+    roots = [BN + r'(%s)\(' % '|'.join(W2 + W1)]
+    d = {'OPER2': core.csym(FAM, BN + r'oper\(chaiscript::Operators::Opers, chaiscript::Boxed_Value const&, chaiscript::Boxed_Value const&\)$'), 'OPER1': core.csym(FAM, BN + r'oper\(chaiscript::Operators::Opers, chaiscript::Boxed_Value const&\)$'),
+         'BN_CTOR': core.csym(FAM, BN + r'Boxed_Number\(chaiscript::Boxed_Value\)$'), 'BOXED_CAST_BOOL': core.csym(FAM, r'chaiscript::boxed_cast<bool>\(')}
+    shapes = []
+    for n in W2 + W1:
+        kind = 1 if n in W2[:6] else 2 if n in W2 else 3
+        shapes.append(dict(d, KIND=kind, NAME='OP_' + n, WRAPPER=core.csym(FAM, BN + n + r'\('), _tag=n, _witness=('witness: wrapper ran',)))
+    return Harness('A4.named_operator_functions', FAM, roots, 'c05_wrappers.c', stubs=stubs, cuts=[r'chaiscript::Boxed_Value::~Boxed_Value'], shapes=shapes, opts=['--unwind', '4'], timeout=60, mem_gb=4, inputs=[], note='Boxed_Number::oper is a recorder of (operator code, operands)')
+
 def harnesses(tier):
-    hs = [oper_harness(tier)] + [unary_harness(l) for l in ALL_TYPES]
+    hs = [oper_harness(tier), wrapper_harness()] + [unary_harness(l) for l in ALL_TYPES]
     types = QUICK_TYPES if tier == 'quick' else ALL_TYPES
     for l in types:
         for r in types:
